@@ -118,8 +118,10 @@ def run(ctx):
                 m = float(ms.get(tr, 0))
                 if math.exp(vis) > m * (1 + 1e-7) + 1e-300:
                     ctx.violation('over-count', 'visual score exceeds the true CTC probability of the transcript', inp, [tr, math.exp(vis)], m)
-            ncand_bound = 100
-            if not pruning and k >= ncand_bound and len(ms) <= k:
+            # 'nothing pruned' = the reference search (same k, no pre-selection) never had more than k candidates in any
+            # frame (its cut margin is None); len(ms) <= k alone is not enough: intermediate prefixes that die later count
+            _, nocut = pb.ref_prefix_beam(P, k, F(0), blank)
+            if not pruning and nocut is None:
                 # unpruned: every transcript of non-zero probability, with its exact mass
                 gotd = {tr: vis for tr, vis, _ in got}
                 for tr, m in ms.items():
